@@ -14,4 +14,8 @@ MCTracerOf == @TRACEROF@
 MCXKinds == @XKINDS@
 MCScript == @SCRIPT@
 MCKept == @KEPT@
+MCRefuseReg == @REFUSEREG@
+MCRefuseInst == @REFUSEINST@
+MCInvokers == @INVOKERS@
+MCCbOf == @CBOF@
 =============================================================================
